@@ -268,8 +268,10 @@ def rlist(r, maxlen=None):
     return ",".join(str(r.randint(0, 200)) for _ in range(n)) or "-"
 
 
-def gen_H(r, maxlen):
-    """random history, biased towards operations whose precondition holds (tracked with Ref)"""
+def gen_H(r, maxlen, kindset="VOFW"):
+    """random history, biased towards operations whose precondition holds (tracked with Ref); kindset "VO": histories of
+    ArrayView / OwnedArray only (the element type of those runs is not trivially copyable)"""
+    vo = kindset == "VO"
     ref = Ref()
     ops = []
     n = r.randint(2, maxlen)
@@ -288,7 +290,7 @@ def gen_H(r, maxlen):
             if free: i = r.choice(free)
             if used: j = r.choice(used)
             if live: k = r.choice(live)
-        kd = r.choice("VOOFFW" if wild else "VOOFF")
+        kd = r.choice("VOO") if vo else r.choice("VOOFFW" if wild else "VOOFF")
         c = r.random()
         slen = len(ref.src[k][0]) if ref.live(k) else 3
 
@@ -302,7 +304,7 @@ def gen_H(r, maxlen):
             tok = "sset:%d:%s:%s" % (r.randrange(NSRC), fl, rlist(r, 6 if fl == "a" else None))
         elif c < 0.09: tok = "skill:%d" % k
         elif c < 0.14: tok = "swrite:%d:%d:%d" % (k, r.randint(0, max(0, slen - 1 + (1 if wild else 0))), r.randint(0, 200))
-        elif c < 0.17: tok = "def:%d:%s" % (i, r.choice("VOFW"))
+        elif c < 0.17: tok = "def:%d:%s" % (i, r.choice("VO" if vo else "VOFW"))
         elif c < 0.28: tok = "src:%d:%s:%d" % (i, kd, k)
         elif c < 0.36: tok = "ptr:%d:%s:%s" % (i, kd, ptrarg())
         elif c < 0.39: tok = "fixn:%d:%s" % (i, rlist(r))
@@ -349,7 +351,7 @@ def gen_H(r, maxlen):
             else:
                 ln = wlen(j)
                 off = r.randint(0, ln)
-                tok = "pw:%d:%s:%d:%d:%d" % (i, r.choice("VOF"), j, off, r.choice([ln - off, r.randint(0, ln - off), ln - off + (1 if wild else 0)]))
+                tok = "pw:%d:%s:%d:%d:%d" % (i, r.choice("VO" if vo else "VOF"), j, off, r.choice([ln - off, r.randint(0, ln - off), ln - off + (1 if wild else 0)]))
         elif c < 0.84:
             same = [x for x in used if ref.sl[x]["k"] == ref.sl[j]["k"]] if used and ref.used(j) else []
             ii = r.choice(same) if same and not wild else r.randrange(NSLOT)
@@ -359,6 +361,8 @@ def gen_H(r, maxlen):
             ee = ref.elems(ref.sl[j]) if ref.used(j) else [0]
             ln = ref.sl[j]["n"] if ee == WRAP else len(ee or [])
             tok = "w:%d:%d:%d" % (j, r.randint(0, max(0, ln - 1 + (1 if wild else 0))), r.randint(0, 200))
+        if vo and tok.split(":")[0] in ("fixn", "fview"):
+            tok = "src:%d:O:%d" % (i, k)
         ops.append(tok)
         try:
             ref.step(tok)
@@ -376,6 +380,16 @@ EXH_ALPHA = ["rr:0:9:0:1", "rr:0:2:0:2", "rr:0:4:0:0", "rw:0:0:1:2", "rw:0:0:0:3
              "sset:0:v:5,6", "skill:0", "swrite:0:1:8", "w:1:0:9", "w:0:1:9"]
 EXH_SMALL = ["rr:0:9:0:1", "rr:0:1:0:2", "rw:0:0:1:2", "pw:1:V:0:0:3", "rw:0:1:0:2", "src:0:O:0", "src:0:F:0", "src:0:V:0", "cc:1:0", "mc:1:0", "ca:0:1", "ma:1:0", "del:0", "fview:1:0:1:2", "asrc:0:1",
              "resize:0:9:4", "resize:1:1:4", "reset:0", "sset:0:v:5,6", "w:1:0:9", "w:0:1:9"]
+
+
+def vo_only(case):
+    """no FixedArray / FixedArrayView anywhere in the history"""
+    if case[0] != "H": return False
+    for t in case.split()[1:]:
+        f = t.split(":")
+        if f[0] in ("fixn", "fview"): return False
+        if f[0] in ("def", "src", "ptr", "pw") and f[2] in "FW": return False
+    return True
 
 
 def exhaustive(alpha, length):
@@ -870,7 +884,7 @@ def _run(ctx):
     ndiff = {}
     nshrunk = {}
     nmism = 0
-    def one_type(tname, arg):
+    def one_type(tname, arg, cases=cases, mlines=mlines, olines=olines, have_model=have_model):
         nonlocal nmism
         label = "wrappers<%s>" % tname
         ilines, crashes = run_impl(ctx, exe, arg, cases)
@@ -940,6 +954,49 @@ def _run(ctx):
             ctx.broken.append("wall-clock budget reached: element type %s not run" % tname)
             continue
         stage(ctx, "differential run " + tname, lambda: one_type(tname, arg))
+    # ---- a NON-trivially-copyable element type (harness: Trk — registered by address, knows its own address, owns a heap
+    # cell): ArrayView<Trk> / OwnedArray<Trk> histories; "independent of the source" is checked by element identity and
+    # ownership (a bitwise duplicate is not a live object: !OWN / X, and a double free under ASan)
+    def trk_stage():
+        rt = ctx.rng("trk")
+        tc = [c for c in cases[:ncorp] if vo_only(c)]
+        tc += [gen_H(rt, 30, "VO") for _ in range(ctx.pick(1200, 10000))]
+        tc += [c for c in exh if vo_only(c)]
+        tol = [oracle(c) for c in tc]
+        tml, thave = None, False
+        if model:
+            rc, tml, merr = vlib.run_lines(ctx, model, [], tc)
+            thave = rc == 0 and len(tml) == len(tc)
+            if thave:
+                bad = [i for i in range(len(tc)) if not omatch(tol[i], tml[i])]
+                if bad:
+                    ctx.broken.append("Coq model and the python reference disagree on %d non-trivial-element cases, first: %r" % (len(bad), tc[bad[0]]))
+        if not thave:
+            tml = [l.replace(WILD + WILD, "skip|- - - -|- - -").replace(WILD, "") for l in tol]
+        one_type("Trk (non-trivially-copyable, instrumented)", "trk", tc, tml, tol, thave)
+        cnt = exec_counters(tc, tml, True, True)
+        need = ["src:O:vec", "src:O:arr", "ptr:O", "pw:O", "cc:O", "mc:O", "ca:O", "ma:O", "asrc:O:vec", "asrc:O:arr", "reset:O", "rptr:O",
+                "rw:O", "resize:O", "rr:O", "del:O", "w:O", "src:V:vec", "src:V:arr", "ptr:V", "pw:V", "cc:V", "ca:V", "asrc:V:vec",
+                "asrc:V:arr", "reset:V", "rptr:V", "rw:V", "del:V", "w:V"]
+        ctx.cov["nontrivial_element_type"] = {"cases": len(tc), "executed": {k: cnt.get(k, 0) for k in need}}
+        zero = [k for k in need if cnt.get(k, 0) == 0]
+        if zero:
+            ctx.broken.append("members not executed with the non-trivially-copyable element type: " + ", ".join(zero))
+        # FixedArray<T> memcpy's: what it does for such a T is probed in a child process (no destructors run), not exercised
+        rc, out, err = ctx.run_exe(exe, ["probeF"], timeout=60)
+        ctx.cov["nontrivial_element_type"]["FixedArray_probe"] = out.strip() or ("rc=%d %s" % (rc, err[-200:]))
+        if "BITWISE" in out:
+            sig = "C11-FixedArray-bitwise-copy-of-nontrivial-T"
+            if ctx.finding_for(sig) is not None:
+                ctx.violation("FixedArray<T> copies non-trivially-copyable elements bitwise", {"probe": out.strip()}, signature=sig)
+            else:
+                ctx.cov.setdefault("possible_findings", []).append(
+                    "FixedArray<T> is instantiable for a non-trivially-copyable T and memcpy's the elements (constructor from "
+                    "(T*, size_t) / vector / array, operator=): the copies share the source's heap state; see build/handoff/C11/finding-fixedarray.md")
+    if not over_budget(ctx, 0.8):
+        stage(ctx, "non-trivially-copyable element type", trk_stage)
+    else:
+        ctx.broken.append("wall-clock budget reached: non-trivially-copyable element type not run")
     ctx.cov["mismatches"] = nmism
     ctx.trusted += ["fact extractor props/C11/factgen.py over `clang++ -std=c++11 -fsyntax-only -Xclang -ast-dump=json "
                     "-Xclang -ast-dump-filter=rkcommon::utility` of a TU instantiating the six wrappers (classifies mem-initialisers and "
